@@ -15,6 +15,10 @@
 (*   if     c x y               var v T; if c { v = x } else { v = y }     *)
 (*   ifnest c1 c2 x y / ifcall c1 x y   a nested if / a call inside a branch*)
 (*   ifret  c x                 if c { return x }      (early return)      *)
+(*   elseif c1 c2 x y z         v := z; if c1 { v = x } else if c2 { v = y }  *)
+(*                              (a chain whose last branch assigns nothing)  *)
+(*   (unary ^x on run-time values is refused by the compiler - "Unary.SSA not   *)
+(*    implemented yet" - and is therefore not part of the modelled core)       *)
 (*   loop   n op x y            v := x; for i := 0; i < n; i++ { v = v op y}*)
 (*   loopret n k op x y         the same loop with `if i == k { return v }`   *)
 (*                              in front of the body (a return guarded by the *)
@@ -151,7 +155,7 @@ TypesOf(p, n) ==   \* sequence of the types of variables 1..2+n
                     [] s.k \in {"bin", "binlit", "neg", "shift", "loop", "loopret", "looprc", "nest", "loopi", "shadow", "expr3"} -> <<ts[s.x]>>
                     [] s.k \in {"cmp", "cmplit", "logic", "not"} -> <<BT>>
                     [] s.k = "cast" -> <<s.t>>
-                    [] s.k \in {"if", "ifnest", "ifcall"} -> <<ts[s.x]>>
+                    [] s.k \in {"if", "ifnest", "ifcall", "elseif"} -> <<ts[s.x]>>
                     [] s.k = "ifret" -> <<BT>>            \* defines a dummy copy of its condition
                     [] s.k \in {"arr", "arrl"} -> <<ArrT(ts[s.x])>>
                     [] s.k \in {"idx", "idxv"} -> <<ts[s.x][2]>>
@@ -205,6 +209,9 @@ AddStmt ==
           \/ "ifnest" \in Kinds /\ \E c1 \in bools : \E x \in ints : \E y \in {v \in ints : ts[v] = ts[x]} :
                 add(S("ifcall", x, y, c1, "", <<>>, 0))
           \/ "ifret" \in Kinds /\ \E c \in bools : \E x \in ints : add(S("ifret", x, 0, c, "", <<>>, 0))
+          \* x, y in the fields, z = c1, c = c2, t carries the index of the third value
+          \/ "ifnest" \in Kinds /\ \E c1 \in bools : \E c2 \in bools : \E x \in ints : \E y \in {v \in ints : ts[v] = ts[x]} :
+                \E z \in {v \in ints : ts[v] = ts[x]} : add(S("elseif", x, y, c1, "", <<z>>, c2))
           \/ "loop" \in Kinds /\ \E x \in ints : \E y \in {v \in ints : ts[v] = ts[x]} : \E op \in {"+", "-", "*", "^"} : \E n \in {0, 1, 3} :
                 add(S("loop", x, y, 0, op, <<>>, n))
           \/ "loopret" \in Kinds /\ \E x \in ints : \E y \in {v \in ints : ts[v] = ts[x]} : \E op \in {"+", "-", "^"} : \E n \in {1, 3} :
@@ -292,6 +299,7 @@ Exec(p, i, env) ==
                   \* if c1 { _, d := addsub(x, y); v = d } else { v = x }
                   [] s.k = "ifcall" -> <<IF env[s.z].v = 1 THEN Bin("-", x, y) ELSE x>>
                   [] s.k = "ifret" -> <<env[s.z]>>
+                  [] s.k = "elseif" -> <<IF env[s.z].v = 1 THEN x ELSE IF env[s.c].v = 1 THEN y ELSE env[s.t[1]]>>
                   [] s.k = "loop" ->
                        LET RECURSIVE It(_, _)
                            It(k, acc) == IF k = 0 THEN acc ELSE It(k - 1, Bin(s.op, acc, y))
